@@ -1814,3 +1814,7 @@ mutant("c01-shared-parser", "C01", "C01-D9", "parser/json/parser.go",
 		json:           json,
 	}
 	return func() parser.Parser { return p }""")
+
+# ---------------------------------------------------------------- C11-D7
+mutant("c11-unmarshal-into-pointer-to-pointer", "C11", "C11-D7", "engine.io/transport/webtransport/server.go",
+       "		err = json.Unmarshal(packet.Data, data)", "		err = json.Unmarshal(packet.Data, &data)")
